@@ -734,6 +734,14 @@ func c05Expect(cfg *c05Cfg, h []int, j int) int {
 func c05SequenceRun(cfg *c05Cfg, h []int) (clause string, emitted int) {
 	val, stack := evidence.Catch(func() {
 		d := &Defragger{}
+		// aliasing oracle: a payload that was delivered stays what was delivered, whatever is fed
+		// afterwards (the consumer - e.g. the client's udpConn.Receive caller - keeps the slice)
+		type held struct {
+			at   int
+			data []byte // the slice as handed out (NOT a copy)
+			want []byte // what it contained when it was handed out
+		}
+		var kept []held
 		for j := range h {
 			sym := &cfg.Alpha[h[j]]
 			out := c05Feed(d, sym)
@@ -743,6 +751,15 @@ func c05SequenceRun(cfg *c05Cfg, h []int) (clause string, emitted int) {
 			if cl := c05Judge(cfg, sym, out, c05Expect(cfg, h, j)); cl != "" {
 				clause = fmt.Sprintf("step %d: %s", j, cl)
 				return
+			}
+			for _, k := range kept {
+				if !bytes.Equal(k.data, k.want) {
+					clause = fmt.Sprintf("step %d: the payload delivered at step %d was overwritten afterwards (delivered payloads must stay intact: the reassembler handed out memory it keeps using)", j, k.at)
+					return
+				}
+			}
+			if out != nil {
+				kept = append(kept, held{j, out.Data, append([]byte(nil), out.Data...)})
 			}
 		}
 	})
